@@ -556,7 +556,7 @@ Definition model_out (c : case) :=
   match c with
   | CSched repaired lin step minsma maxsma maxrit sma0 gsma fix_all stream _ _ =>
       let '(r, cs) := sched_model repaired lin step minsma maxsma maxrit sma0 gsma fix_all stream in
-      (match r with Ret _ l => (0%Z, map (fun i : iso Fnum => (Prim2SF (i_sma Fnum i), i_code Fnum i, i_valid Fnum i)) l)
+      (match r with Ret _ l => (0%Z, map (fun i : iso Fnum => (Prim2SF (i_sma Fnum i), i_code Fnum i, i_valid Fnum i, i_geom Fnum i)) l)
                   | IndexErr _ => (1%Z, []) | Starved _ => (2%Z, []) | Fuel _ => (3%Z, []) end,
        map (fun c : call Fnum => (Prim2SF (c_sma Fnum c), c_noniter Fnum c, c_inw Fnum c, c_first Fnum c)) cs,
        @nil (spec_float * spec_float), 0%nat)
